@@ -225,11 +225,6 @@ bool splinetable<Alloc>::read_fits_core_impl(fitsfile* fits, const std::string& 
 				
 				keylen = strlen(key) + 1;
 				valuelen = strlen(value) + 1;
-				aux[i] = allocate<char_ptr>(2);
-				aux[i][0] = aux[i][1] = NULL;
-				aux[i][0] = allocate<char>(keylen);
-				aux[i][1] = allocate<char>(valuelen);
-				std::copy(key,key+keylen,aux[i][0]);
 				//remove stupid quotes mandated by FITS, but not removed by cfitsio on reading
 				//Note that we do not attempt to remove whitespace, because we cannot 
 				//distinguish whitespace included by the user and whitespace pointlessly
@@ -239,18 +234,22 @@ bool splinetable<Alloc>::read_fits_core_impl(fitsfile* fits, const std::string& 
 					if(valuelen>2 && value[valuelen-2]=='\'') //remove a trailing quote also
 						end--;
 					//a quote inside a FITS string is stored doubled; undo that
-					char* out=&aux[i][1][0];
+					char* out=value;
 					for(const char* in=value+1; in<end; in++){
 						*out++=*in;
 						if(in[0]=='\'' && in+1<end && in[1]=='\'')
 							in++;
 					}
 					*out='\0';
+					//the stored string is released with its own length
+					valuelen = strlen(value) + 1;
 				}
-				else{
-					std::copy(value,value+valuelen,aux[i][1]);
-					aux[i][1][valuelen-1]='\0';
-				}
+				aux[i] = allocate<char_ptr>(2);
+				aux[i][0] = aux[i][1] = NULL;
+				aux[i][0] = allocate<char>(keylen);
+				aux[i][1] = allocate<char>(valuelen);
+				std::copy(key,key+keylen,aux[i][0]);
+				std::copy(value,value+valuelen,aux[i][1]);
 				i++;
 			}
 		} else {
